@@ -47,6 +47,7 @@ def _case(draw, tier):
         (4, ops.dii_op(2)),
         (1, ops.smeta_op(PIDS, FORMATS, 1)),
         (1, ops.dmeta_op(PIDS, ["f"])),
+        (1, ops.decoy_op(PIDS)),
         (1, ops.REOPEN))
     return {"cfg": cfg, "contents": cs, "docs": [{"hex": "6d"}],
             "ops": draw(st.lists(ops.on_instances(op), min_size=2, max_size=30))}
